@@ -565,3 +565,21 @@ register("C10",
          [_c10_part, planner_part("C10", _nt_accepted),
           e2e_part("C10", [("n", {"adversarial": True, "units": [2, 3]}), ("d", {"units": [2, 3]})], _pairs_c02, set(),
                    lambda ur: (ur.impl or "").startswith("ok"), n_quick=100, n_thorough=1000, extra=_wellformed_extra)])
+
+
+def _c11_matrix(rep, tier):
+    from . import c11tier
+    return c11tier.run_c11(rep, tier)
+
+
+register("C11",
+         "unit tier: random programs containing interface bindings; e2e tier: value/pointer receivers, bindings to providers / struct "
+         "providers / values / arguments / fields, consumers of I and of C (identity seen by consumers of I = identity produced for C); "
+         "matrix: 44 (interface, concrete) pairs for wire.Bind and wire.InterfaceValue — value and pointer receivers, promoted methods, "
+         "interface-to-interface (superset, subset, unrelated, itself), embedded interfaces, aliases, interfaces and types of another "
+         "package — verdict by Go's method-set rules, accepted ones compiled; non-trivial = program with a binding / each pair",
+         [planner_part("C11", _nt_bind),
+          e2e_part("C11", [("b", {"units": [1, 2]})], _pairs_c02, {"C11"},
+                   lambda ur: any(it["kind"] == "bind" for it in ur.u.items) and (ur.impl or "").startswith("ok"),
+                   n_quick=90, n_thorough=900),
+          _c11_matrix])
